@@ -444,6 +444,7 @@ class Engine(object):
         self.prefix = list(prefix)
         self.pos = 0
         self.pc = []
+        self.decided = {}
         self.pre = []
         self.lemmas = []
         self.apps = {}
@@ -548,22 +549,40 @@ class Engine(object):
         self.model = None
 
     # ---- branching
-    def _check(self, extra):
-        s = z3.Solver()
-        s.set('timeout', self.feas_timeout_ms)
-        for c in self.constraints():
-            s.add(c)
-        s.add(extra)
+    def sat_check(self, extras, timeout_ms):
+        """satisfiability of pre + pc (+ lemmas) + extras.  Lemma instances are true facts about total
+        functions: when the rest is UF-free they cannot affect satisfiability, so they are dropped and the
+        pure real-arithmetic problem goes to nlsat (exact and fast at finding models)."""
+        from .solve import _has_uf, _nlsat_tactic
+        base = self.pre + self.pc + list(extras)
         t0 = time.time()
-        r = s.check()
+        if not _has_uf(base):
+            s = _nlsat_tactic().solver()
+            cons = base
+        else:
+            s = z3.Solver()
+            cons = base + (self.lemmas if self.use_lemmas else [])
+        s.set('timeout', int(timeout_ms))
+        for c in cons:
+            s.add(c)
+        try:
+            r = s.check()
+        except z3.Z3Exception:
+            r = z3.unknown
         self.stats['feas_checks'] += 1
         self.stats['feas_s'] += time.time() - t0
         if r == z3.sat:
-            return 'sat', s.model()
+            try:
+                return 'sat', s.model()
+            except z3.Z3Exception:
+                return 'unknown', None
         if r == z3.unsat:
             return 'unsat', None
         self.stats['feas_unknown'] += 1
         return 'unknown', None
+
+    def _check(self, extra):
+        return self.sat_check([extra], self.feas_timeout_ms)
 
     def decide(self, cond):
         cond = z3.simplify(cond)
@@ -571,6 +590,9 @@ class Engine(object):
             return True
         if z3.is_false(cond):
             return False
+        cid = cond.get_id()
+        if cid in self.decided:
+            return self.decided[cid]
         if self.pos < len(self.prefix):
             take, forked = self.prefix[self.pos]
         else:
@@ -613,6 +635,11 @@ class Engine(object):
             self.prefix.append((take, forked))
             self.nforks += 1
         self.pos += 1
+        self.decided[cid] = take
+        try:
+            self.decided[z3.simplify(z3.Not(cond)).get_id()] = not take
+        except z3.Z3Exception:
+            pass
         self.pc.append(cond if take else z3.Not(cond))
         if self.model is not None and self.pos <= len(self.prefix):
             try:
